@@ -7,6 +7,7 @@ from watch_common import CONC_SPECS, XMapSpec
 PROP_FILES = ["C18"]
 MODULE = "harness_watch"
 EXE = "runner-watch"
+SPECS = {cls().component: (cls(), MODULE, EXE) for cls in CONC_SPECS + [XMapSpec]}
 
 
 def race_tier(ctx):
